@@ -7,10 +7,10 @@ from .. import land
 LEVEL = 'exploration'
 ENGINE = 'SEQ'
 TECHNIQUE = 'exhaustive product of (persistent class, state at restart, number of consecutive restarts, results pipe, restart arguments) executed as operation histories on real workers and checked against a reference model of a fresh worker'
-LEVEL_TEXT = ('every combination of the bounded product is run on real workers: 3 classes x 11 states at restart (never used, results unread, large results unread, inputs queued, closed, died by exception, killed, uncooperative, cooperative with a slow clean-up, killed with a parked forwarder, killed with a slow consumer) x 1-3 restarts x default/supplied results pipe x restart arguments; oracle: live worker, same name/userid/target/defaults, new identity for process/remote kinds, old child gone, the new stream yields exactly the post-restart results in order, result counts post-restart enqueues, raises (and keeps the old child) when the old incarnation cannot be stopped')
+LEVEL_TEXT = ('every combination of the bounded product is run on real workers: 3 classes x 12 states at restart (never used, dying on its own, results unread, large results unread, inputs queued, closed, died by exception, killed, uncooperative, cooperative with a slow clean-up, killed with a parked forwarder, killed with a slow consumer) x 1-3 restarts x default/supplied results pipe x restart arguments; oracle: live worker, same name/userid/target/defaults, new identity for process/remote kinds, old child gone, the new stream yields exactly the post-restart results in order, result counts post-restart enqueues, raises (and keeps the old child) when the old incarnation cannot be stopped')
 LEVEL_NOTE = 'the state alphabet is finite and hand-picked from the statement; timing inside a state (how far the old child got) is whatever the OS does, the oracle does not depend on it'
 
-STATES = ['fresh', 'unread', 'big-unread', 'queued', 'closed', 'died', 'killed', 'stubborn', 'slow-unwind', 'killed+parked', 'killed+slow-consumer']
+STATES = ['fresh', 'unread', 'big-unread', 'queued', 'closed', 'died', 'dying', 'killed', 'stubborn', 'slow-unwind', 'killed+parked', 'killed+slow-consumer']
 
 
 def prep(state, kind, tmp):
@@ -28,6 +28,8 @@ def prep(state, kind, tmp):
         return [E('old1'), {'op': 'call', 'var': 'w', 'method': 'close'}]
     if state == 'died':
         return [E('old1'), E('POISON'), {'op': 'sleep', 's': 0.4}]
+    if state == 'dying':
+        return [E('POISON')]          # the restart meets the worker while it is going down on its own
     if state == 'killed+slow-consumer':
         return [E('old1'), {'op': 'sleep', 's': 0.3}, {'op': 'kill', 'var': 'w', 'sig': 'KILL'}, {'op': 'sleep', 's': 0.15}]
     if state in ('killed', 'killed+parked'):
